@@ -371,7 +371,10 @@ class Schema:
                 if parent_path_str not in items:
                     items[parent_path_str] = {}
 
-                if not items[parent_path_str].get("type"):
+                if (
+                    not items[parent_path_str].get("type")
+                    and par_implicit_type in IMP_TYPE_LOOKUP
+                ):
                     items[parent_path_str]["type"] = IMP_TYPE_LOOKUP[par_implicit_type]
                     items[parent_path_str]["type_fmt"] = items[parent_path_str]["type"]
 
